@@ -537,7 +537,7 @@ fn run(ctx: &mut Ctx) {
         return;
     }
     let opts = DiffOpts { prop: "C05", vet_is_violation: true, budget: 2_000_000, print: PrintOpts::default() };
-    let n = tier.pick(400u64, 9_000u64) / ctx.nshards as u64 + 1;
+    let n = tier.pickn(400u64, 9_000u64) / ctx.nshards as u64 + 1;
     for j in 0..n {
         // positive
         let mut rng = Rng::keyed(seed, "c05-scope", ctx.shard as u64, j);
@@ -605,7 +605,7 @@ fn run(ctx: &mut Ctx) {
         });
     }
     // locals named like top-level functions, in call position and as values
-    let n = tier.pick(160u64, 4_000u64) / ctx.nshards as u64 + 1;
+    let n = tier.pickn(160u64, 4_000u64) / ctx.nshards as u64 + 1;
     for j in 0..n {
         let mut rng = Rng::keyed(seed, "c05-callee", ctx.shard as u64, j);
         let (prog, uses, local_calls, path) = callee_program(&mut rng);
@@ -635,7 +635,7 @@ fn run(ctx: &mut Ctx) {
     // variants spelled like the local names (x, y, z, q, k, ...; not like Main's top-level functions, whose Go names would collide with the variants' Go types - C19's business): an imported package's variants are reached
     // through its name only, so every use still means the local binder, and the illegal uses of `q` stay unresolved
     let imported = "package Lib\n\nenum Names { x, y, z, q, k }\n\nenum Mixed { sh, other, acc, cnt, p, n }\n\nfn lib_id(v: int32) -> int32 { v }\n";
-    let n = tier.pick(96u64, 2_400u64) / ctx.nshards as u64 + 1;
+    let n = tier.pickn(96u64, 2_400u64) / ctx.nshards as u64 + 1;
     for j in 0..n {
         let mut rng = Rng::keyed(seed, if j % 2 == 0 { "c05-scope" } else { "c05-callee" }, ctx.shard as u64, j / 2);
         let (prog, uses) = if j % 2 == 0 {
@@ -705,7 +705,7 @@ fn run(ctx: &mut Ctx) {
         }
     }
     // generated programs with the three-name pool
-    let n = tier.pick(120u64, 3_000u64) / ctx.nshards as u64 + 1;
+    let n = tier.pickn(120u64, 3_000u64) / ctx.nshards as u64 + 1;
     let opts2 = DiffOpts { prop: "C05", vet_is_violation: false, budget: 400_000, print: PrintOpts::default() };
     for j in 0..n {
         let mut rng = Rng::keyed(seed, "c05-gen", ctx.shard as u64, j);
